@@ -640,3 +640,22 @@ Proof.
   assert (Hd : Verify 1000 0 (ex_tv 3) (ex_c 10) (ex_c 30) = Some (VErr (RType 2) true)) by (vm_compute; reflexivity).
   rewrite Hd. cbn [ve_soft]. apply spin_loop.
 Qed.
+
+(** ** sequences of deliveries: each one is judged on its own *)
+Lemma deliveries_app now drift tv subj l1 l2 :
+  deliveries now drift tv subj (l1 ++ l2) =
+  deliveries now drift tv subj l1 ++ deliveries now drift tv (head_after_all now drift tv subj l1) l2.
+Proof.
+  revert subj. induction l1 as [|[[get fuel] new] l1 IH]; intros subj; [reflexivity|].
+  cbn [app deliveries head_after_all]. rewrite IH. reflexivity.
+Qed.
+
+Theorem delivery_on_its_own now drift tv subj l1 get fuel new l2 :
+  nth_error (deliveries now drift tv subj (l1 ++ (get, fuel, new) :: l2)) (length l1) =
+  Some (incoming now drift tv get fuel (head_after_all now drift tv subj l1) new).
+Proof.
+  rewrite deliveries_app.
+  assert (Hlen : forall s l, length (deliveries now drift tv s l) = length l).
+  { intros s l. revert s. induction l as [|[[g f] n] l IH]; intros s; [reflexivity|]. cbn. rewrite IH. reflexivity. }
+  rewrite nth_error_app2; rewrite Hlen; [|apply Nat.le_refl]. rewrite Nat.sub_diag. reflexivity.
+Qed.
